@@ -19,7 +19,8 @@ from pathlib import Path
 
 VERIF = Path(__file__).resolve().parent.parent
 SPEC = VERIF / "spec"
-WORK = VERIF / ".work"
+WORK = Path(os.environ.get("VERIF_WORK_DIR", str(VERIF / ".work")))   # scratch (default /verif/.work)
+EVIDENCE = Path(os.environ.get("VERIF_EVIDENCE_DIR", str(VERIF / "evidence")))   # redirected when trying seeded changes
 REPO = Path(os.environ.get("VIROCON_REPO", "/repo"))
 TLA_CP = "/opt/veriftools/tla/tla2tools.jar:/opt/veriftools/tla/CommunityModules-deps.jar"
 INT_MAX = 2**31 - 1
@@ -503,8 +504,8 @@ class Ctx:
             "wall_s": round(wall, 2),
             "violations": len(self.violations),
         }
-        (VERIF / "evidence").mkdir(exist_ok=True)
-        (VERIF / "evidence" / f"{self.pid}.json").write_text(json.dumps(ev, indent=1, default=str) + "\n")
+        EVIDENCE.mkdir(parents=True, exist_ok=True)
+        (EVIDENCE / f"{self.pid}.json").write_text(json.dumps(ev, indent=1, default=str) + "\n")
         seen = set()
         for what, full in self.known_hit:
             if what in seen:
